@@ -19,7 +19,7 @@ func (g *Gen) str() string {
 func (g *Gen) litOfType(t string, depth int) *Expr {
 	switch {
 	case t == "string":
-		if g.chance(0.1) && !g.P.JSONTwin {
+		if depth == 0 && g.P.HalfTyped > 0 && g.chance(0.1) && !g.P.JSONTwin {
 			return &Expr{K: "heredoc", S: "line one\nline two\n"}
 		}
 		return &Expr{K: "str", S: g.str()}
@@ -92,7 +92,12 @@ func sortStrings(s []string) {
 // ref yields a placeholder resolved by resolveRefs once all declarations exist.
 func (g *Gen) ref() *Expr { return &Expr{K: "ref"} }
 
+var halfTyped = []string{"provider::aws::ar", "provider::aws::", "provider::", "core::lo", "var.", "var.x.", "local.nope[", "x ?", "x ? y :", "1 +", "!", "lower", "lower(\"a\",", "\"${var.", "\"${", "[for", "[for v in", "{for k, v in x :", "x[", "a.b[\"k\"].", "[1, ", "{ a = ", "<<EOT\nunterminated", "tr", "nul", "provider::aws::arn_parse"}
+
 func (g *Gen) anyExpr(t string, depth int) *Expr {
+	if g.P.HalfTyped > 0 && !g.P.JSONTwin && g.chance(g.P.HalfTyped) {
+		return &Expr{K: "raw", S: g.pick(halfTyped)}
+	}
 	if depth >= g.P.ExprDepth {
 		if g.chance(0.5) {
 			return g.ref()
@@ -361,6 +366,9 @@ func (g *Gen) items(b *BodySpec, depth int, pathPrefix string) []*Item {
 		if depth == 0 && n == 0 && g.chance(0.6) {
 			n = 1
 		}
+		if depth == 0 && bl.Type == "decl" && g.P.ManyTargets > 0 {
+			n = g.P.ManyTargets
+		}
 		for i := 0; i < n; i++ {
 			noise()
 			out = append(out, g.blockItem(bl, depth, pathPrefix))
@@ -616,6 +624,11 @@ func (g *Gen) World() *World {
 			p.Files = append(p.Files, f)
 		}
 		g.resolveRefs(p.Files)
+	}
+	if g.P.NoSchema {
+		for _, p := range w.Paths {
+			p.Schema = nil
+		}
 	}
 	return w
 }
